@@ -92,6 +92,7 @@ func (f *SubstituteIf) Call(s *slip.Scope, args slip.List, depth int) (result sl
 	switch seq := args[2].(type) {
 	case nil:
 		// nothing to replace
+		sr.checkBounds(0)
 	case slip.List:
 		dup := make(slip.List, len(seq))
 		copy(dup, seq)
@@ -161,6 +162,9 @@ func parseSubstituteIfArgs(f slip.Object, s *slip.Scope, args slip.List, depth i
 	if v, ok := slip.GetArgsKeyValue(kargs, slip.Symbol(":end")); ok {
 		switch tv := v.(type) {
 		case slip.Fixnum:
+			if tv < 0 {
+				slip.TypePanic(s, depth, ":end", v, "non-negative fixnum")
+			}
 			sr.end = int(tv)
 		case nil:
 			// leave as -1
@@ -181,10 +185,21 @@ func parseSubstituteIfArgs(f slip.Object, s *slip.Scope, args slip.List, depth i
 	return &sr
 }
 
-func (sr *subIfRep) replace(seq slip.List) slip.Object {
-	if sr.end < 0 || len(seq) < sr.end {
-		sr.end = len(seq)
+// checkBounds panics unless start and end are valid bounding indices for a
+// sequence of the given size. An end that was not provided or was nil is set
+// to size.
+func (sr *subIfRep) checkBounds(size int) {
+	if sr.end < 0 {
+		sr.end = size
 	}
+	if size < sr.end || sr.end < sr.start {
+		slip.ErrorPanic(sr.s, sr.depth, "bounding indices %d and %d are invalid for sequence of length %d",
+			sr.start, sr.end, size)
+	}
+}
+
+func (sr *subIfRep) replace(seq slip.List) slip.Object {
+	sr.checkBounds(len(seq))
 	if sr.count < 0 {
 		sr.count = len(seq)
 	}
@@ -220,9 +235,7 @@ func (sr *subIfRep) maybe(seq slip.List, i int) bool {
 }
 
 func (sr *subIfRep) replaceBytes(seq []byte) slip.Object {
-	if sr.end < 0 || len(seq) < sr.end {
-		sr.end = len(seq)
-	}
+	sr.checkBounds(len(seq))
 	if sr.count < 0 {
 		sr.count = len(seq)
 	}
